@@ -119,6 +119,11 @@ func tuneForProperty(c *Config, prop string, r *core.Rand) {
 	case "C26", "C29", "C30", "C31", "C32", "C33", "C35", "C13":
 		// relay traffic needs applications whose allowance covers tens of relays per node
 		c.BaseRelaysPerPOKT = int64([]int{20000, 200000}[r.Intn(2)])
+		if prop == "C32" && r.Chance(0.3) {
+			// allowances of a few dozen relays per session: a node reaches its share, and the rounding
+			// of the share matters
+			c.BaseRelaysPerPOKT = int64([]int{700, 1000, 1500}[r.Intn(3)])
+		}
 		c.ClaimExpiration = int64(r.Range(8, 30))
 		// a session needs SessionNodeCount servicers on the chain; the second chain is served by
 		// every other genesis node only
